@@ -718,6 +718,19 @@ def templates(op, spox):
     def inline3(a, p):
         return list(spox.inline(inline_model_3(op, spox))(a[0], a[1]).values())
 
+    def inline_mut(a, p):
+        """A ModelProto used as a template: inlined, then edited by its owner.  inline() replicates the model as it was
+        when it was called."""
+        import onnx
+
+        m = onnx.ModelProto()
+        m.CopyFrom(inline_model_4(op, spox))
+        res = list(spox.inline(m)(a[0]).values())
+        for n in m.graph.node:
+            if n.op_type == "Constant":
+                n.attribute[0].t.CopyFrom(onnx.numpy_helper.from_array(np.array(5.0, np.float32)))
+        return res
+
     def unsafe_cast_f6(a, p):
         from spox._internal_op import unsafe_cast
 
@@ -734,12 +747,19 @@ def templates(op, spox):
         # reported [N, features], computed [N, targets] (known defect F6): the evaluator's natural result fails check
         return [ml.linear_regressor(a[0], coefficients=[1.0, 0.5, -1.0], intercepts=[0.25], targets=1)]
 
+    # evaluators that compute in a wider type of the same kind than the one ONNX declares (the reference evaluator does
+    # for ReduceSumSquare on 32-bit integers and for the Mean/InvStdDev outputs of LayerNormalization on non-float32 data)
+    t("rss_I32M", (("I32M",),), ("I32S",), lambda a, p: [op.reduce_sum_square(a[0], keepdims=0)])
+    t("rss_U32V", (("U32V",),), ("U32S",), lambda a, p: [op.reduce_sum_square(a[0], keepdims=1)])
+    t("layernorm_D", (("D23",), ("D3",)), ("D23", "DM", "DM"), lambda a, p: list(op.layer_normalization(a[0], a[1], axis=-1)))
+    t("layernorm_H", (("H23",), ("H3",)), ("H23", "HM", "HM"), lambda a, p: list(op.layer_normalization(a[0], a[1], axis=-1)))
     t("linreg", (("F23",),), ("LR",), linreg)
     t("inline_3", (("F6",), ("F6",)), ("F6", "F6"), inline3)
     t("unsafe_cast_F6", (("F6",),), ("FV",), unsafe_cast_f6)
     t("unsafe_reshape_F6", (("F6",),), ("F6",), unsafe_reshape_f6)
     t("inline_1", (("F23",),), ("F23", "F6"), inline1)
     t("inline_2", (("F6",), ("F6",)), ("F6",), inline2)
+    t("inline_mut", (("F6",),), ("F6",), inline_mut)
     return T
 
 
@@ -775,6 +795,16 @@ def inline_model_3(op, spox):
     return _INLINE_CACHE["m3"]
 
 
+def inline_model_4(op, spox):
+    """no initializers: the factor is a Constant node"""
+    from spox import Tensor
+
+    if "m4" not in _INLINE_CACHE:
+        a = spox.argument(Tensor(np.float32, (6,)))
+        _INLINE_CACHE["m4"] = spox.build({"a": a}, {"r": op.mul(a, op.const(np.array(2.0, np.float32)))})
+    return _INLINE_CACHE["m4"]
+
+
 def gen_sources(rng):
     """Initial environment: arguments and constants of every kind (JSON-able specs)."""
     src = []
@@ -805,6 +835,12 @@ def gen_sources(rng):
     src.append({"t": "const", "kind": "TWO1", "dtype": I64, "shape": [1], "value": [2]})
     src.append({"t": "const", "kind": "STR2", "dtype": "str", "shape": [2], "value": [rng.choice(["a", "bc", "äö"]), "d"]})
     src.append({"t": "const", "kind": "B0", "dtype": "bool", "shape": [], "value": [rng.random() < 0.5]})
+    src.append({"t": "const", "kind": "I32M", "dtype": "int32", "shape": [2, 2], "value": [rng.randrange(-5, 6) for _ in range(4)]})
+    src.append({"t": "const", "kind": "U32V", "dtype": "uint32", "shape": [3], "value": [rng.randrange(0, 6) for _ in range(3)]})
+    src.append({"t": "const", "kind": "D23", "dtype": "float64", "shape": [2, 3], "value": [1.0, 2.0, 4.0, 0.5, 0.25, 8.0]})
+    src.append({"t": "const", "kind": "D3", "dtype": "float64", "shape": [3], "value": [1.0, 2.0, 3.0]})
+    src.append({"t": "const", "kind": "H23", "dtype": "float16", "shape": [2, 3], "value": [1.0, 2.0, 4.0, 0.5, 0.25, 8.0]})
+    src.append({"t": "const", "kind": "H3", "dtype": "float16", "shape": [3], "value": [1.0, 2.0, 3.0]})
     return src
 
 
